@@ -42,7 +42,7 @@ def validate(pid, traces, tag, V, shards=8):
                 key = "curve/%s/%s/%s/%s" % (why.split(":")[0], first.get("rule"), first.get("via"), ev.get("order", first.get("ad")))
             small = {"history": h["key"], "step": l, "op": ev["op"], "rule": first.get("rule"), "via": first.get("via"), "ad": first.get("ad"), "order": ev.get("order"),
                      "nodes": [(n["d"], n["v"]["k"]) for n in first.get("nodes", [])][:8]}
-            V.add(key, "history %s rejected by Curve.tla at step %d (%s): %s" % (h["key"], l, v["name"], json.dumps(small)), {"engine": "curve", "event": dict(h, ev=h["ev"][:l])})
+            V.add(key, "history %s rejected by Curve.tla at step %d (%s): %s" % (h["key"], l, v["name"], json.dumps(small)), {"engine": "curve", "event": dict(h, ev=h["ev"][:l])}, src=p)
     return hist, steps
 
 
